@@ -624,6 +624,52 @@ def gen_group_collision_case(r):
     return {"trig": gen_trigger(r), "main": "main", "defs": [{"name": "main", "steps": steps}], "fns": fns}
 
 
+def gen_group_discovery_case(r):
+    """2-3 ResourceFunctions whose kinds share the kind WORD but live in DIFFERENT API groups, every one prepared
+    WITHOUT `plural`: each group's plural must be discovered (`api.lookup_kind`) on first use, and the discoveries of one
+    pass overlap or not depending on when the functions start.  Each function starts at once or behind a gate step (a
+    ResourceFunction with a given plural) — so whether its discovery begins while another group's discovery call is
+    in flight depends on the completion order of the gates' GETs and on how long a discovery takes.  Optionally a
+    second function of one of the groups (legitimately shares that group's discovery).  Every object carries its own
+    tag which the function returns; a ValueFunction joins them."""
+    fns, steps = {}, []
+    word = "Sprocket"
+    groups = ["verif.dev/v1", "other.verif.dev/v1", "third.verif.dev/v1"]
+    r.shuffle(groups)
+    groups = groups[:r.choice([2, 2, 3])]
+    if r.random() < 0.3:
+        groups.append(r.choice(groups))
+    shape = r.choice(["together", "gated", "gated", "two-gates"])
+    gates = []
+    for _ in range({"together": 0, "gated": 1, "two-gates": 2}[shape]):
+        l = f"st{len(steps)}"
+        fns[f"main.{l}"] = _rf(f"main.{l}", "get-ok")
+        steps.append(_step(l, {"ref": {"fn": f"main.{l}"}}, inputs={"map": [["x", lit(len(steps))]]}))
+        gates.append(l)
+    readers = []
+    for j, g in enumerate(groups):
+        l = f"st{len(steps)}"
+        site = f"main.{l}"
+        f = _rf(site, r.choice(["get-ok", "get-ok", "match-ok"]))
+        f["rf"].update({"kind": word, "apiVersion": g, "noplural": True})
+        f["showres"] = True
+        fns[site] = f
+        ins = [["g", lit(j)]]
+        behind = None            # the gate this reader waits for (None: it starts at once)
+        if shape == "gated" and j >= 1:
+            behind = gates[0]
+        elif shape == "two-gates" and (j >= 1 or r.random() < 0.5):
+            behind = gates[j % 2]
+        if behind:
+            ins.append(["after", path("steps", behind, "got", "x")])
+        steps.append(_step(l, {"ref": {"fn": site}}, inputs={"map": ins}))
+        readers.append(l)
+    l = f"st{len(steps)}"
+    fns[f"main.{l}"] = _vf()
+    steps.append(_step(l, {"ref": {"fn": f"main.{l}"}}, inputs={"map": [[f"r{k}", path("steps", x, "res")] for k, x in enumerate(readers)]}))
+    return {"trig": gen_trigger(r), "main": "main", "defs": [{"name": "main", "steps": steps}], "fns": fns}
+
+
 def call(f, *args):
     return {"call": f, "args": list(args)}
 
